@@ -176,7 +176,7 @@ pub fn gen_history(rng: &mut Rng) -> History {
 }
 
 pub fn gen_knobs(rng: &mut Rng) -> Knobs {
-    Knobs { capacity: if rng.chance(1, 5) { None } else { Some(CAPACITIES[rng.below(CAPACITIES.len())]) }, heap_limit: None, mmap: false, toggle_ml: false, warm: 0, cloned: rng.chance(1, 4) }
+    Knobs { capacity: if rng.chance(1, 5) { None } else { Some(CAPACITIES[rng.below(CAPACITIES.len())]) }, heap_limit: None, mmap: false, toggle_ml: false, warm: 0, cloned: rng.chance(1, 4), boxed_sink: rng.chance(1, 4) }
 }
 
 /// Runs every leg for one generated case.
@@ -319,8 +319,8 @@ pub fn run_case(prop: &str, sub: u64, histories: usize, scratch: &Path, acc: &mu
     }
     // real file: memory map and plain reads
     if rng.chance(1, 12) {
-        for mmap in [true, false] {
-            let st = Strategy::Path { mmap };
+        for (mmap, via_file) in [(true, false), (false, false), (true, true), (false, true)] {
+            let st = if via_file { Strategy::File { mmap } } else { Strategy::Path { mmap } };
             let o = run(&case, &k0, &st, None, Some(scratch));
             acc.evals += 1;
             acc.faults.inc(if mmap { "strategy:mmap-file" } else { "strategy:read-file" });
@@ -394,7 +394,7 @@ fn heap_limit_leg(case: &Case, rng: &mut Rng, reference: &RunOut, sub: u64, acc:
     let h = History::plain(Style::gen(rng), rng.next());
     let cap = if rng.chance(1, 2) { Some(CAPACITIES[rng.below(8)]) } else { None };
     let st = Strategy::Reader(h);
-    let ok_at = |limit: usize| -> RunOut { run(case, &Knobs { capacity: cap, heap_limit: Some(limit), mmap: false, toggle_ml: false, warm: 0, cloned: false }, &st, None, None) };
+    let ok_at = |limit: usize| -> RunOut { run(case, &Knobs { capacity: cap, heap_limit: Some(limit), mmap: false, toggle_ml: false, warm: 0, cloned: false, boxed_sink: false }, &st, None, None) };
     let (mut lo, mut hi) = (0usize, case.data.len() + 70_000);
     if ok_at(hi).res.is_err() {
         return;
@@ -415,10 +415,10 @@ fn heap_limit_leg(case: &Case, rng: &mut Rng, reference: &RunOut, sub: u64, acc:
         class: class.into(),
         summary,
         subseed: sub,
-        replay: json!({"engine": "iosim", "kind": "c02c03", "leg": "heap-limit", "case": case.to_json(), "knobs": knobs_json(&Knobs { capacity: cap, heap_limit: Some(limit), mmap: false, toggle_ml: false, warm: 0, cloned: false }), "strategy": st.to_json(), "observed": evs_json(&o.evs), "observed_result": format!("{:?}", o.res)}),
+        replay: json!({"engine": "iosim", "kind": "c02c03", "leg": "heap-limit", "case": case.to_json(), "knobs": knobs_json(&Knobs { capacity: cap, heap_limit: Some(limit), mmap: false, toggle_ml: false, warm: 0, cloned: false, boxed_sink: false }), "strategy": st.to_json(), "observed": evs_json(&o.evs), "observed_result": format!("{:?}", o.res)}),
     };
     let m = model(case);
-    let kk = Knobs { capacity: cap, heap_limit: Some(hi), mmap: false, toggle_ml: false, warm: 0, cloned: false };
+    let kk = Knobs { capacity: cap, heap_limit: Some(hi), mmap: false, toggle_ml: false, warm: 0, cloned: false, boxed_sink: false };
     for vd in judge(case, &kk, &st, reference, &m, &at) {
         if vd.prop == "C02" {
             acc.violations.push(mk(&format!("heap-limit-just-sufficient:{}", vd.class), format!("with heap limit {hi} (the smallest that succeeds): {}", vd.summary), hi, &at));
